@@ -110,7 +110,7 @@ impl C08 {
         letters.push(ADMIN_TOUCH_SECRET.to_string());
         letters.push(ADMIN_TOUCH_PLAIN.to_string());
         let session_letters = [
-            "use-db t tok", "use-db t bob bt", "use-db t wrong", "auth u wrong", "arbiter", "unwatch-all",
+            "use-db t tok", "use-db t bob bt", "use-db t wrong", "use-db t x wrong", "auth u wrong", "arbiter", "unwatch-all",
             "watch $$token", "watch $$secret", "watch secret", "watch $secret", "watch *", "watch $$*",
             "unwatch $$secret", "unwatch secret", "set secret v", "set $secret v", "remove secret", "increment secret",
             "set-safe secret 7 v", ADMIN_TOUCH_SECRET, ADMIN_TOUCH_PLAIN,
@@ -124,7 +124,7 @@ impl C08 {
 }
 
 fn v(clause: &str, detail: String) -> Vec<StepViolation> {
-    vec![StepViolation { clause: clause.to_string(), detail }]
+    vec![StepViolation { clause: clause.to_string(), detail, shape: None }]
 }
 
 fn side_key(s: &Side) -> String {
